@@ -155,7 +155,12 @@ def ids : List (String × (Defects → Defects)) :=
    ("C09-enum-accepts-string", fun d => { d with enumAcceptsString := false }),
    ("C09-int-range-unchecked", fun d => { d with intRangeNotChecked := false }),
    ("C09-missing-variable-accepted", fun d => { d with missingVariableAccepted := false }),
-   ("C09-ifdef-skips-unknown-field", fun d => { d with ifdefSkipsUnknownField := false })]
+   ("C09-ifdef-skips-unknown-field", fun d => { d with ifdefSkipsUnknownField := false }),
+   ("C09-overlap-untyped-inline", fun d => { d with overlapUntypedInlineKeyedNone := false }),
+   ("C09-null-default-counts", fun d => { d with nullDefaultCounts := false }),
+   ("C09-known-args-stale", fun d => { d with knownArgsStale := false }),
+   -- listed under C06 (same code path: `into_const_with` fails, the literal is never judged), `also` C09
+   ("C06-literal-unchecked-beside-unsupplied-variable", fun d => { d with argsJudgedAfterSubstitution := false })]
 
 def defectsOf (known : List String) : Defects :=
   { inputValueNotForwarded := known.contains "C09-input-value-not-forwarded",
@@ -168,7 +173,11 @@ def defectsOf (known : List String) : Defects :=
     enumAcceptsString := known.contains "C09-enum-accepts-string",
     intRangeNotChecked := known.contains "C09-int-range-unchecked",
     missingVariableAccepted := known.contains "C09-missing-variable-accepted",
-    ifdefSkipsUnknownField := known.contains "C09-ifdef-skips-unknown-field" }
+    ifdefSkipsUnknownField := known.contains "C09-ifdef-skips-unknown-field",
+    overlapUntypedInlineKeyedNone := known.contains "C09-overlap-untyped-inline",
+    nullDefaultCounts := known.contains "C09-null-default-counts",
+    knownArgsStale := known.contains "C09-known-args-stale",
+    argsJudgedAfterSubstitution := known.contains "C06-literal-unchecked-beside-unsupplied-variable" }
 
 /-- execution-time messages for problems validation is required to catch -/
 def mustBeCaught (m : String) : Bool :=
@@ -176,6 +185,8 @@ def mustBeCaught (m : String) : Bool :=
   || (m.startsWith "Variable " && m.endsWith " is not defined.") || m.startsWith "Unknown directive"
 
 def judge (known : List String) (case impl : String) : JudgeOut :=
+  -- the witness of a finding another property owns (shared through `also`): replayed there, not here
+  if impl.trimAscii.toString = "(foreign)" then .ok else
   match (parse case).bind case?, (parse impl).bind impl? with
   | some c, some i =>
     let viol := Spec.Validate.violations {} c.S c.doc c.vars c.opName
@@ -205,11 +216,14 @@ def judge (known : List String) (case impl : String) : JudgeOut :=
         match cand.find? (fun p => (run (p.2 dK)).isRejected = specRejected) with
         | some p => .known p.1 mStr specStr
         | none =>
-          match cand.find? (fun p => outcomeStr (run (p.2 dK)) ≠ mStr) with
+          -- a defect LATENT behind another one: the spec's verdict comes back only when both are
+          -- repaired; the deviation is reported under the one that masks (the earlier in `ids`)
+          match cand.find? (fun p => cand.any (fun q => (run (q.2 (p.2 dK))).isRejected = specRejected)) with
           | some p => .known p.1 mStr specStr
-          | none => match cand with
-            | p :: _ => .known p.1 mStr specStr
-            | [] => .viol mStr specStr
+          | none =>
+            match cand.find? (fun p => outcomeStr (run (p.2 dK)) ≠ mStr) with
+            | some p => .known p.1 mStr specStr
+            | none => .viol mStr ("deviation from the specification that no listed finding explains; " ++ specStr)
   | _, _ => .viol "undecodable case or output" ""
 
 end AGV.Drive.C09
